@@ -365,6 +365,48 @@ def worker(case, led):
                           key + (str(q), "flag"), fields, rep)
             except Exception as e:
                 led.check(False, "post:Mpo.apply:single_product_operator_total", "Mpo.apply", f"raised {type(e).__name__}: {e}", key + (str(q), "total"), fields, rep)
+    # ---- Hermiticity predicate of operators: true exactly for operators equal to their conjugate transpose (complex Hermitian ones included, complex symmetric
+    #      non-Hermitian ones excluded)
+    for cf in (False, True):
+        tt = U.random_terms(model, rng, 3, complex_factors=cf)
+        if not tt:
+            continue
+        try:
+            O1 = Mpo(model, tt)
+            herm = O1.add(O1.conj_trans())
+            anti = O1.add(O1.conj_trans().scale(-1.0)) if cf else None
+            for label, O_ in (("O + O^dagger", herm), ("O", O1)) + ((("i(O - O^dagger)", anti.scale(1j)), ("i(O + O^dagger)", herm.scale(1j))) if cf else ()):
+                Dd = S.dense(O_)
+                want = bool(np.abs(Dd - Dd.conj().T).max() <= 1e-9 * max(1.0, np.abs(Dd).max()))
+                borderline = (not want) and np.abs(Dd - Dd.conj().T).max() <= 1e-5
+                if borderline:
+                    continue
+                got = bool(O_.is_hermitian())
+                led.check(got == want, "post:Mpo.is_hermitian:iff_equal_to_its_conjugate_transpose", "Mpo.is_hermitian",
+                          f"{label} ({'complex' if cf else 'real'} coefficients): is_hermitian() = {got}, dense |O - O^dagger| = {np.abs(Dd - Dd.conj().T).max():.2e}",
+                          (name, n, "is_hermitian", label, cf), {"complex": cf, "expected": want}, {"model": name, "nsites": n, "terms": [repr(t) for t in tt], "operator": label})
+        except Exception as e:
+            led.check(False, "post:Mpo.is_hermitian:total", "Mpo.is_hermitian", f"raised {type(e).__name__}: {e}", (name, n, "is_hermitian", cf), {}, {})
+    # ---- a state embedded as a density operator (MpDm.from_mps) keeps its prefactor, sign and phase included
+    from renormalizer.mps import MpDm
+    for q in sel[:2]:
+        a0 = U.make_state(model, q, 2, rng, complex_=bool(rng.integers(2)))
+        if a0 is None:
+            continue
+        for c_ in (1.0, -0.5, 0.3 + 0.4j, 2.0j):
+            a1 = a0.copy()
+            a1.coeff = c_
+            key = (name, n, "from_mps", str(q), str(c_))
+            try:
+                rho = MpDm.from_mps(a1)
+                want = np.diag(S.dense(a1))
+                got = S.dense(rho)
+                led.check(got.shape == want.shape and close(got, want) and not S.qnv_violations(rho), "post:MpDm.from_mps:diagonal_embedding_with_the_prefactor", "MpDm.from_mps",
+                          f"prefactor {c_}: the embedded operator differs from diag(c psi) by {np.abs(got - want).max() if got.shape == want.shape else 'shape'}", key, {"prefactor": str(c_)},
+                          {"model": name, "nsites": n, "sector": q, "prefactor": str(c_)})
+                led.check(close(S.dense(a1), c_ * S.dense(a0, with_coeff=False)), "frame:MpDm.from_mps:input", "MpDm.from_mps", "input state changed", key + ("frame",), {}, {})
+            except Exception as e:
+                led.check(False, "post:MpDm.from_mps:total", "MpDm.from_mps", f"raised {type(e).__name__}: {e}", key, {}, {})
     # ---- bra-ket pairs (the correlation-function helper): <c_b B| O |c_k K> with the prefactors of both states, with and without an operator
     from renormalizer.mps.mps import BraKetPair
     for q in sel[:2]:
